@@ -45,6 +45,8 @@ pub struct RunCfg {
     pub watchdog_s: u64,
     /// shard i of n over the case index space
     pub shard: (u64, u64),
+    /// directory for the per-worker in-flight files (which case a worker is on, last panic seen)
+    pub inflight_dir: Option<std::path::PathBuf>,
 }
 
 pub struct RunResult {
@@ -127,6 +129,9 @@ pub fn run<M: Monitor>(m: &M, cfg: &RunCfg) -> RunResult {
             let (next, slots, merged, done) = (&next, &slots, &merged, &done);
             handles.push(sc.spawn(move || {
                 crate::run::install_panic_hook();
+                if let Some(d) = &cfg.inflight_dir {
+                    crate::run::inflight_open(d, w);
+                }
                 let mut rep = Report::default();
                 // fixed (exhaustive) work is split across workers and shards
                 {
@@ -151,7 +156,9 @@ pub fn run<M: Monitor>(m: &M, cfg: &RunCfg) -> RunResult {
                     let cs = case_seed(cfg.seed, i) | 1;
                     slots[w].1.store(t0.elapsed().as_millis() as u64, Ordering::SeqCst);
                     slots[w].0.store(cs, Ordering::SeqCst);
+                    crate::run::inflight_case(cs, i);
                     run_case(m, cs, i, cfg.tier, &mut rep);
+                    crate::run::inflight_case(0, 0);
                     slots[w].0.store(0, Ordering::SeqCst);
                 }
                 merged.lock().unwrap().merge(rep);
